@@ -19,6 +19,7 @@ mod p09;
 mod p14;
 mod p10;
 mod p20;
+mod p05;
 // MODULES (keep this list and the two dispatch tables below in sync)
 
 use std::io::{self, BufRead, Write, BufWriter};
@@ -36,6 +37,7 @@ pub fn dispatch_exec(op: &str, a: &[i64]) -> Option<String> {
   if let Some(r) = p14::exec(op, a) { return r; }
   if let Some(r) = p10::exec(op, a) { return r; }
   if let Some(r) = p20::exec(op, a) { return r; }
+  if let Some(r) = p05::exec(op, a) { return r; }
   // DISPATCH-EXEC
   Some("bad-op".to_string())
 }
@@ -54,6 +56,7 @@ pub fn dispatch_enum(name: &str, args: &[String], w: &mut dyn Write) -> bool {
   if p14::run_enum(name, args, w) { return true; }
   if p10::run_enum(name, args, w) { return true; }
   if p20::run_enum(name, args, w) { return true; }
+  if p05::run_enum(name, args, w) { return true; }
   // DISPATCH-ENUM
   false
 }
